@@ -33,6 +33,15 @@ var StmtPkgs = map[string]bool{
 	"apps/proxy/circular_queue": true,
 	"apps/proxy/reportfeed":     true,
 	"rtcm/pushback":             true,
+	// the concurrent glue: a run may switch on a yield before every statement
+	// there ("fine-grained mode"), so that two goroutines sharing state without
+	// (enough) synchronisation interleave between any two statements
+	"file_handler":      true,
+	"apps/appcore":      true,
+	"apps/rtcmfilter":   true,
+	"apps/displayrtcm3": true,
+	"apps/rtcmlogger":   true,
+	"apps/proxy":        true,
 }
 var FnPkgs = map[string]bool{
 	"rtcm/handler":             true,
